@@ -5,6 +5,7 @@ package internal
 import (
 	"errors"
 	"fmt"
+	"math/big"
 	"math/rand/v2"
 	"strconv"
 	"strings"
@@ -244,6 +245,17 @@ func TestVerifC05Validate(t *testing.T) {
 			Multiplier: float64(mn) / float64(md), RandomizationFactor: float64(rn) / float64(rd)}
 		tc := TimeoutConfig{Timeout: time.Duration(to)}
 		out.Linef("case %d", idx)
+		if idx == 0 {
+			// corpus: the default configurations against the definitions REGENERATED from backoff.go / timeout_sender.go
+			d, dt := configretry.NewDefaultBackOffConfig(), NewDefaultTimeoutConfig()
+			m, rf := new(big.Rat).SetFloat64(d.Multiplier), new(big.Rat).SetFloat64(d.RandomizationFactor)
+			out.Linef("op defaults")
+			out.Linef("obs defaults en=%d init=%d maxint=%d maxel=%d mnum=%s mden=%s rfnum=%s rfden=%s timeout=%d valid=%d %d", vB(d.Enabled), int64(d.InitialInterval),
+				int64(d.MaxInterval), int64(d.MaxElapsedTime), m.Num(), m.Denom(), rf.Num(), rf.Denom(), int64(dt.Timeout), c05vCode(d.Validate()), vB(dt.Validate() == nil))
+			out.Linef("nt")
+			out.Linef("end")
+			continue
+		}
 		out.Linef("op validate en=%d init=%d maxint=%d maxel=%d mnum=%d mden=%d rfnum=%d rfden=%d timeout=%d", vB(en), ini, mi, me, mn, md, rn, rd, to)
 		code := c05vCode(cfg.Validate())
 		out.Linef("obs valid %d %d", code, vB(tc.Validate() == nil))
